@@ -439,7 +439,7 @@ class SchemaGen:
         """nested plain value (the domain of from_native)"""
         if depth <= 0 or self.r.random() < .5:
             return self.r.choice([None, True, False, 0, 1, -3, 2 ** 65, 0.0, 1.5, -2.25, "", "abc", "é",
-                                  b"ab", U4[0], DTS[0], DS[0]])
+                                  b"ab", b"", 10 ** 12, -10 ** 9, 2 ** 53 + 1, -0.0, 1e300, U4[0], DTS[0], DS[0]])
         if self.r.random() < .5:
             return [self.plain_value(depth - 1) for _ in range(self.r.randint(0, 3))]
         return {k: self.plain_value(depth - 1) for k in self.r.sample(["a", "b", 1, None, "k.x"], self.r.randint(0, 3))}
